@@ -6,6 +6,7 @@ import PyYetiVerif.Props.C13Cord
 import PyYetiVerif.Props.C13DmigX
 import PyYetiVerif.Props.C13Fmt
 import PyYetiVerif.Props.C13Multi
+import PyYetiVerif.Props.C13Values
 #print axioms PyYetiVerif.C13.thru_roundtrip
 #print axioms PyYetiVerif.C13.thru_maximal
 #print axioms PyYetiVerif.C13.nasints_layout
@@ -63,3 +64,11 @@ import PyYetiVerif.Props.C13Multi
 #print axioms PyYetiVerif.C13.typed_readers_independent
 #print axioms PyYetiVerif.C13.sets_in_file
 #print axioms PyYetiVerif.C13.wtset_is_segment
+#print axioms PyYetiVerif.C13.real_field_reads
+#print axioms PyYetiVerif.C13.real_field_accuracy
+#print axioms PyYetiVerif.C13.real_field_clean
+#print axioms PyYetiVerif.C13.tabled1_roundtrip_values
+#print axioms PyYetiVerif.C13.grid_roundtrip_values
+#print axioms PyYetiVerif.C13.cord2_roundtrip_values
+#print axioms PyYetiVerif.C13.dmig_roundtrip_values
+#print axioms PyYetiVerif.C13.dmig_lines_int_instance
